@@ -590,6 +590,6 @@ def replay(record):
 
 MANIFEST = {
     "technique": "TLA+ reference codec for the mmCIF bond conventions and the model/alt-loc selection (specs/C04) model-checked by TLC; every enumerated structure / atom_site table pushed through the real set_structure/get_structure (CIF, BinaryCIF, compressed); recorded random structures validated by TLC",
-    "level_text": "The specification states what chem_comp_bond templates, struct_conn rows and implied polymer links mean (RefWrite/RefRead) and TLC proves on all structures of <=2 residues (6 residue kinds x 6 placements, every single bond of 6 types; thorough: 3 residues / 2 bonds) that every structure without a named Reason is returned unchanged and that every structure which is not returned has a Reason; a second module specifies model and alternate-location selection (first / occupancy / all, positive, negative and out-of-range model requests, 1..3 models). Each enumerated structure is written and read back by the real code in all three file flavours, each enumerated table is read with every request, and the outcome is compared with the value TLC computed; random larger structures with awkward names, optional fields, several models and boxes are recorded and re-judged by TLC.",
+    "level_text": "The specification states what chem_comp_bond templates, struct_conn rows and implied polymer links mean (RefWrite/RefRead) and TLC proves on all structures of <=2 residues (6 residue kinds x 6 placements, every single bond of 6 types; thorough: 3 residues / 2 bonds) that every structure without a named Reason is returned unchanged and that every structure which is not returned has a Reason; a second module specifies model and alternate-location selection (first / occupancy / all, positive, negative and out-of-range model requests, 1..3 models). Each enumerated structure is written and read back by the real code in all three file flavours, each enumerated table is read with every request, and the outcome is compared with the value TLC computed; random larger structures with awkward names, optional fields, several models and boxes are recorded and re-judged by TLC. Recorded structures include a 'grid' family (40-64 atoms on a regular coordinate grid with one many-decimal and one large-magnitude outlier of either sign, so that compress() chooses fixed-point packing or must fall back) and, in 40% of the traces, a caller who overwrites every annotation, the coordinates and the box in place between set_structure() and write() (the file holds what was set).",
     "level_note": "Structures whose bonds the file format cannot express (Reasons computed by the specification) are reported as known findings only when the implementation returns exactly what the conventions predict. Float text formatting is delegated to C05/C06; coordinates are exactly representable integers. Synthetic CCD. Trusted: TLC, value parser, numpy, the projection.",
 }
